@@ -277,14 +277,54 @@ func contextRefName(contextOfCall protoreflect.Descriptor, refElement protorefle
 	refPath := pathToPackage(refElement)
 	contextPath := pathToPackage(contextOfCall)
 
+	// Strip the scopes shared with the context, but always keep the element's
+	// own name (a message referring to itself is still written by name).
 	for i := 0; i < len(contextPath); i++ {
-		if len(refPath) == 0 || refPath[0] != contextPath[i] {
+		if len(refPath) <= 1 || refPath[0] != contextPath[i] {
 			break
 		}
 		refPath = refPath[1:]
 	}
 
+	// The name is resolved starting from the innermost scope: if a nearer
+	// scope declares something called like the first component, the short
+	// name would point there instead. Fall back to the fully qualified name.
+	want := refElement
+	for i := 1; i < len(refPath); i++ {
+		want = want.Parent()
+	}
+	if found := lookupFromScope(contextOfCall, protoreflect.Name(refPath[0])); found != nil && found.FullName() != want.FullName() {
+		return "." + string(refElement.FullName()), nil
+	}
+
 	return strings.Join(refPath, "."), nil
+}
+
+// lookupFromScope finds what a single-component type name resolves to when
+// written inside scope: the message's own nested types first, then each
+// enclosing message, then the file.
+func lookupFromScope(scope protoreflect.Descriptor, name protoreflect.Name) protoreflect.Descriptor {
+	for scope != nil {
+		switch st := scope.(type) {
+		case protoreflect.MessageDescriptor:
+			if m := st.Messages().ByName(name); m != nil {
+				return m
+			}
+			if e := st.Enums().ByName(name); e != nil {
+				return e
+			}
+		case protoreflect.FileDescriptor:
+			if m := st.Messages().ByName(name); m != nil {
+				return m
+			}
+			if e := st.Enums().ByName(name); e != nil {
+				return e
+			}
+			return nil
+		}
+		scope = scope.Parent()
+	}
+	return nil
 }
 
 func pathToPackage(refElement protoreflect.Descriptor) []string {
